@@ -70,11 +70,17 @@ func Run(r *ev.Run, replay string) {
 				r.Count("witness_cases", 1)
 			}
 		}
-		for sh := 0; sh < 3; sh++ {
+		for sh := 0; sh < 4; sh++ {
 			wg.Add(1)
 			go func(sg sysgen, sh int) {
 				defer wg.Done()
 				rng := r.Rand(fmt.Sprintf("%s/%d", sg.name, sh))
+				if sh == 3 {
+					// Numbers at the edges of the integer ranges: the bound after
+					// the largest number a version can hold is infinity, followed by
+					// finite numbers.
+					sg.gen = gen.Extreme(sg.gen)
+				}
 				var bg []string
 				for i := 0; i < 60; i++ {
 					bg = append(bg, sg.cand(rng))
